@@ -92,6 +92,26 @@ def _names(doc, path="$", out=None):
     return out
 
 
+def _file_route(h, path, Factory, counters, bad):
+    """Write, then load twice (also under another spelling of the path): two loads are two independent containers."""
+    h.toJsonFile(path)
+    r1 = Factory.fromJsonFile(path)
+    r2 = Factory.fromJsonFile(os.path.join(os.path.dirname(path), ".", os.path.basename(path)))
+    counters["file_loaded_twice"] = 1
+    if r1 is r2:
+        bad("two fromJsonFile calls on the same file returned the same object")
+    else:
+        t2 = json.dumps(r2.toJson(), sort_keys=True)
+        try:
+            r1 += Factory.fromJsonFile(path)
+        except Exception:  # noqa: BLE001
+            pass
+        else:
+            if json.dumps(r2.toJson(), sort_keys=True) != t2:
+                bad("merging into one load of a file changed another load of the same file (shared state)")
+    return Factory.fromJsonFile(path)
+
+
 def run_case(i, rng, tier):
     state = rng.getstate()
     res = _run(i, rng, tier, False)
@@ -188,11 +208,12 @@ def _run(i, rng, tier, neutralise):
 
     # 2. three reload routes
     reloads = {}
-    path = os.path.join(env.TMP, "c04-%d-%d.json" % (os.getpid(), i))
+    # one file per process, rewritten by every case: what a loader remembers about a path must not outlive the file's content
+    path = os.path.join(env.TMP, "c04-%d.json" % os.getpid())
     routes = {
         "dict": lambda: Factory.fromJson(json.loads(dtext)),
         "string": lambda: Factory.fromJsonString(h.toJsonString()),
-        "file": lambda: (h.toJsonFile(path), Factory.fromJsonFile(path))[1],
+        "file": lambda: _file_route(h, path, Factory, counters, bad),
     }
     for name, fn in routes.items():
         try:
